@@ -728,6 +728,19 @@ func newRawReader(e *env.Env) *rawReader {
 	return &rawReader{e: e, entries: m, maps: map[string]_map.Map[string, *configapi.PathValue]{}}
 }
 
+// forget closes the reader's handles on a target's maps (each handle is a client session of its own)
+func (r *rawReader) forget(target string) {
+	id := cfgID(target)
+	r.mu.Lock()
+	defer r.mu.Unlock()
+	for _, name := range []string{fmt.Sprintf("configurations-%s", id), fmt.Sprintf("configurations-%s-applied", id)} {
+		if pm, ok := r.maps[name]; ok {
+			_ = pm.Close(context.Background())
+			delete(r.maps, name)
+		}
+	}
+}
+
 func (r *rawReader) state(target string) string {
 	id := cfgID(target)
 	m := r.pathMap(fmt.Sprintf("configurations-%s", id))
@@ -785,6 +798,7 @@ func (h *history) run(e *env.Env, rr *rawReader, seed int64) []string {
 			lines = append(lines, fmt.Sprintf("c03.get\t%s.q%d\t%s\t%d\t%s\t%s\t%s\t%s\t%s", id, k, h.name, i, enc, q.form, env.Hx(q.text), env.Hx(pfx), runGet(e, q)))
 		}
 	}
+	rr.forget(h.target)
 	return lines
 }
 
@@ -1005,6 +1019,7 @@ func main() {
 				fmt.Fprintf(out, "c03.commit\t%s.p%d\t%s\t%d\t%s\t%s\t%s\n", cid, p, target, idx, pre, pvMap(ch), dump())
 				prev = idx
 			}
+			rr.forget(target)
 		}
 	}
 
